@@ -6,4 +6,6 @@ Extraction "model.ml" vio_kit inj exp_new exp_record exp_reset exp_setVisits exp
   sml_ctor sml_sync_all sml_sync2 sml_sync3 sml_step Ts Rs
   bexp_new bexp_record bexp_reset thompson_row
   hist_step rewards_of count countsum mean_x m2_x freq_x never_visited
-  trk_new trk_ctor trk_step tSt tN tLast t_bad precond_ok is_ident_rowb delta.
+  trk_new trk_ctor trk_step tSt tN tLast t_bad precond_ok is_ident_rowb delta
+  cg_id cg_size cexp_new cexp_step cnode cproj row_rewards row_count cop_ok
+  cml_ctor cml_sync_all cml_sync_ids cml_sync_sa.
